@@ -67,6 +67,8 @@ type Config struct {
 	// instead of the apis/client + apis/server wrappers: no socks5 request/response is
 	// exchanged, a client session stays in its initial state until it reads.
 	RawMux bool
+
+	noAutoStart bool
 }
 
 type World struct {
@@ -107,6 +109,12 @@ func ResetGlobals() {
 	metrics.VerifReset()
 }
 
+// RunBare is Run without starting any endpoint: body starts what it needs.
+func RunBare(cfg Config, ch vsched.Chooser, body func(w *World)) *Exec {
+	cfg.noAutoStart = true
+	return Run(cfg, ch, body)
+}
+
 // Run performs one execution of body in a fresh world under chooser ch.
 func Run(cfg Config, ch vsched.Chooser, body func(w *World)) *Exec {
 	ResetGlobals()
@@ -141,9 +149,11 @@ func Run(cfg Config, ch vsched.Chooser, body func(w *World)) *Exec {
 	ex := &Exec{W: w}
 	ex.Outcome = s.Run(func() {
 		vsched.Cur().Node = "app"
-		if err := w.start(); err != nil {
-			w.Errs = append(w.Errs, "setup: "+err.Error())
-			return
+		if !cfg.noAutoStart {
+			if err := w.start(); err != nil {
+				w.Errs = append(w.Errs, "setup: "+err.Error())
+				return
+			}
 		}
 		body(w)
 	})
@@ -268,10 +278,8 @@ func (w *World) RawAccept() (c net.Conn, err error) {
 	return
 }
 
-func (w *World) start() error {
-	if w.Cfg.RawMux {
-		return w.startRaw()
-	}
+// StartServer starts the real server only.
+func (w *World) StartServer() error {
 	var err error
 	w.OnNode("server", func() {
 		w.Srv = server.NewServer()
@@ -288,6 +296,14 @@ func (w *World) start() error {
 			err = fmt.Errorf("server Start: %w", e)
 		}
 	})
+	return err
+}
+
+func (w *World) start() error {
+	if w.Cfg.RawMux {
+		return w.startRaw()
+	}
+	err := w.StartServer()
 	if err != nil || w.Cfg.NoClient {
 		return err
 	}
@@ -372,7 +388,9 @@ func (w *World) Shutdown() {
 	if w.Cli != nil {
 		w.OnNode("client", func() { w.Cli.Stop() })
 	}
-	w.OnNode("server", func() { w.Srv.Stop() })
+	if w.Srv != nil {
+		w.OnNode("server", func() { w.Srv.Stop() })
+	}
 }
 
 // Pattern is the position-coded payload of (stream id, direction): any loss, duplication,
